@@ -19,11 +19,11 @@ theorem mem_of_get {ν : Type} {m : NMap ν} {k : Nat} {v : ν} (h : NMap.get m 
     · exact List.mem_cons_of_mem _ (ih h)
 
 /-- `e` survives a crash that leaves `st`: some file's synced prefix yields it -/
-def Dur (crc : Bytes → Nat) (st : Store) (e : Entry) : Prop :=
-  ∃ k f, NMap.get st k = some f ∧ e ∈ fileEntries crc (f.data.take f.synced)
+def Dur (fmt : Format) (crc : Bytes → Nat) (st : Store) (e : Entry) : Prop :=
+  ∃ k f, NMap.get st k = some f ∧ e ∈ fileEntries fmt crc (f.data.take f.synced)
 
-theorem durable_of_dur {crc : Bytes → Nat} {st : Store} {e : Entry} (h : Dur crc st e) :
-    e ∈ durable crc st := by
+theorem durable_of_dur {fmt : Format} {crc : Bytes → Nat} {st : Store} {e : Entry} (h : Dur fmt crc st e) :
+    e ∈ durable fmt crc st := by
   obtain ⟨k, f, hg, he⟩ := h
   unfold durable recoverAll crashImage
   rw [List.mem_flatMap]
@@ -32,44 +32,44 @@ theorem durable_of_dur {crc : Bytes → Nat} {st : Store} {e : Entry} (h : Dur c
 /-! ## the file header is accepted whatever the sequence number -/
 
 theorem openFile_header_isSome (seq : Nat) (rest : Bytes) :
-    ∃ s, openFile (header seq ++ rest) = some s := by
+    ∃ s, openFile fmt (header fmt seq ++ rest) = some s := by
   unfold openFile
-  have hl : (header seq ++ rest).length = 16 + rest.length := by
+  have hl : (header fmt seq ++ rest).length = 16 + rest.length := by
     rw [List.length_append, header_length, overhead]
   rw [if_neg (by rw [hl]; unfold overhead; omega)]
-  have h1 : (header seq ++ rest).take 4 = magic := by
+  have h1 : (header fmt seq ++ rest).take 4 = magic := by
     unfold header; rw [List.append_assoc]; exact List.take_left' rfl
-  have h2 : ((header seq ++ rest).drop 4).head? = some 1 := by
+  have h2 : ((header fmt seq ++ rest).drop 4).head? = some fmt.version := by
     unfold header; rw [List.append_assoc, List.drop_left' (by rfl)]; rfl
   rw [if_neg (by rw [h1]; simp), if_neg (by rw [h2]; simp)]
   exact ⟨_, rfl⟩
 
-theorem fileEntries_header (crc : Bytes → Nat) (seq : Nat) (tail : Bytes) :
-    fileEntries crc (header seq ++ tail) = entries crc tail := by
+theorem fileEntries_header (fmt : Format) (crc : Bytes → Nat) (seq : Nat) (tail : Bytes) :
+    fileEntries fmt crc (header fmt seq ++ tail) = entries fmt crc tail := by
   unfold fileEntries readFile
   obtain ⟨s, hs⟩ := openFile_header_isSome seq tail
   rw [hs]
   simp only
-  rw [← header_length seq, List.drop_left' rfl]
+  rw [← header_length fmt seq, List.drop_left' rfl]
 
-theorem fileEntries_clean (crc : Bytes → Nat) (seq : Nat) (es : List Entry) (hok : AllOk crc es) :
-    fileEntries crc (header seq ++ encs es) = es := by
-  rw [fileEntries_header, entries_encs crc es hok]
+theorem fileEntries_clean (fmt : Format) (crc : Bytes → Nat) (seq : Nat) (es : List Entry) (hok : AllOk fmt crc es) :
+    fileEntries fmt crc (header fmt seq ++ encs es) = es := by
+  rw [fileEntries_header, entries_encs fmt crc es hok]
 
-theorem fileEntries_nil (crc : Bytes → Nat) : fileEntries crc [] = [] := by
+theorem fileEntries_nil (fmt : Format) (crc : Bytes → Nat) : fileEntries fmt crc [] = [] := by
   unfold fileEntries readFile openFile; rfl
 
 /-- the synced prefix of a clean file yields a prefix of its entries -/
-theorem fileEntries_synced_prefix (crc : Bytes → Nat) (seq : Nat) (es : List Entry) (k syn : Nat)
-    (hok : AllOk crc es) (hs : syn = 0 ∨ syn = (header seq ++ encs (es.take k)).length) :
-    ∀ e ∈ fileEntries crc ((header seq ++ encs es).take syn), e ∈ es := by
+theorem fileEntries_synced_prefix (fmt : Format) (crc : Bytes → Nat) (seq : Nat) (es : List Entry) (k syn : Nat)
+    (hok : AllOk fmt crc es) (hs : syn = 0 ∨ syn = (header fmt seq ++ encs (es.take k)).length) :
+    ∀ e ∈ fileEntries fmt crc ((header fmt seq ++ encs es).take syn), e ∈ es := by
   intro e he
   rcases hs with h | h
   · subst h; rw [List.take_zero, fileEntries_nil] at he; cases he
-  · have hsplit : header seq ++ encs es = (header seq ++ encs (es.take k)) ++ encs (es.drop k) := by
+  · have hsplit : header fmt seq ++ encs es = (header fmt seq ++ encs (es.take k)) ++ encs (es.drop k) := by
       rw [List.append_assoc, ← encs_append, List.take_append_drop]
     rw [hsplit, h, List.take_left' rfl,
-      fileEntries_clean crc seq _ (fun x hx => hok x (List.mem_of_mem_take hx))] at he
+      fileEntries_clean fmt crc seq _ (fun x hx => hok x (List.mem_of_mem_take hx))] at he
     exact List.mem_of_mem_take he
 
 /-! ## world: history bookkeeping -/
@@ -123,12 +123,12 @@ theorem storeAt_push {w : World} (h : WInv w) (st' : Store) (c : Call) (t : Nat)
     | succ n => rw [hd] at hs; simp at hs
 
 /-- acknowledged-Ok entries are recoverable from every crash image taken at or after the ack -/
-def Safe (crc : Bytes → Nat) (acks : List AckRec) (w : World) : Prop :=
-  ∀ a ∈ acks, a.res = .ok → ∀ t st, a.io ≤ t → w.storeAt t = some st → Dur crc st a.entry
+def Safe (fmt : Format) (crc : Bytes → Nat) (acks : List AckRec) (w : World) : Prop :=
+  ∀ a ∈ acks, a.res = .ok → ∀ t st, a.io ≤ t → w.storeAt t = some st → Dur fmt crc st a.entry
 
-theorem safe_push {crc : Bytes → Nat} {acks : List AckRec} {w : World} (hw : WInv w)
-    (hs : Safe crc acks w) (hat : ∀ a ∈ acks, a.io ≤ w.io) (st' : Store) (c : Call)
-    (hmono : ∀ e, Dur crc w.store e → Dur crc st' e) : Safe crc acks (w.push st' c) := by
+theorem safe_push {fmt : Format} {crc : Bytes → Nat} {acks : List AckRec} {w : World} (hw : WInv w)
+    (hs : Safe fmt crc acks w) (hat : ∀ a ∈ acks, a.io ≤ w.io) (st' : Store) (c : Call)
+    (hmono : ∀ e, Dur fmt crc w.store e → Dur fmt crc st' e) : Safe fmt crc acks (w.push st' c) := by
   intro a ha hok t st hle hst
   rcases storeAt_push hw st' c t st hst with ⟨_, h⟩ | ⟨_, h⟩
   · exact hs a ha hok t st hle h
@@ -137,17 +137,17 @@ theorem safe_push {crc : Bytes → Nat} {acks : List AckRec} {w : World} (hw : W
 
 /-! ## store updates preserve what is durable -/
 
-theorem dur_insert_fresh {crc : Bytes → Nat} {st : Store} {k : Nat} {f : File} {e : Entry}
-    (hk : NMap.get st k = none) (h : Dur crc st e) : Dur crc (NMap.insert k f st) e := by
+theorem dur_insert_fresh {fmt : Format} {crc : Bytes → Nat} {st : Store} {k : Nat} {f : File} {e : Entry}
+    (hk : NMap.get st k = none) (h : Dur fmt crc st e) : Dur fmt crc (NMap.insert k f st) e := by
   obtain ⟨k', g, hg, he⟩ := h
   refine ⟨k', g, ?_, he⟩
   rw [NMap.get_insert]
   have : k' ≠ k := by intro hc; subst hc; rw [hk] at hg; cases hg
   rw [if_neg this, hg]
 
-theorem dur_appendData {crc : Bytes → Nat} {st : Store} {k : Nat} {bs : Bytes} {e : Entry}
+theorem dur_appendData {fmt : Format} {crc : Bytes → Nat} {st : Store} {k : Nat} {bs : Bytes} {e : Entry}
     (hsyn : ∀ f, NMap.get st k = some f → f.synced ≤ f.data.length)
-    (h : Dur crc st e) : Dur crc (appendData st k bs) e := by
+    (h : Dur fmt crc st e) : Dur fmt crc (appendData st k bs) e := by
   unfold appendData
   cases hg : NMap.get st k with
   | none => exact h
@@ -163,10 +163,10 @@ theorem dur_appendData {crc : Bytes → Nat} {st : Store} {k : Nat} {bs : Bytes}
       exact he
     · exact ⟨k', g, by rw [NMap.get_insert, if_neg hk, hg'], he⟩
 
-theorem dur_syncFile {crc : Bytes → Nat} {st : Store} {k : Nat} {e : Entry}
+theorem dur_syncFile {fmt : Format} {crc : Bytes → Nat} {st : Store} {k : Nat} {e : Entry}
     (hcl : ∀ f, NMap.get st k = some f →
-      ∀ x ∈ fileEntries crc (f.data.take f.synced), x ∈ fileEntries crc f.data)
-    (h : Dur crc st e) : Dur crc (syncFile st k) e := by
+      ∀ x ∈ fileEntries fmt crc (f.data.take f.synced), x ∈ fileEntries fmt crc f.data)
+    (h : Dur fmt crc st e) : Dur fmt crc (syncFile st k) e := by
   unfold syncFile
   cases hg : NMap.get st k with
   | none => exact h
@@ -186,41 +186,41 @@ theorem dur_syncFile {crc : Bytes → Nat} {st : Store} {k : Nat} {e : Entry}
 /-! ## rotator invariant -/
 
 /-- the current writer's file is clean: header + intact entries, synced at an entry boundary -/
-def CurClean (crc : Bytes → Nat) (st : Store) (c : Nat) : Prop :=
-  ∃ es k syn, NMap.get st c = some ⟨header c ++ encs es, syn⟩ ∧ AllOk crc es ∧ k ≤ es.length ∧
-    (syn = 0 ∨ syn = (header c ++ encs (es.take k)).length)
+def CurClean (fmt : Format) (crc : Bytes → Nat) (st : Store) (c : Nat) : Prop :=
+  ∃ es k syn, NMap.get st c = some ⟨header fmt c ++ encs es, syn⟩ ∧ AllOk fmt crc es ∧ k ≤ es.length ∧
+    (syn = 0 ∨ syn = (header fmt c ++ encs (es.take k)).length)
 
-structure RInv (crc : Bytes → Nat) (r : Rot) : Prop where
+structure RInv (fmt : Format) (crc : Bytes → Nat) (r : Rot) : Prop where
   keys : ∀ k f, NMap.get r.w.store k = some f → k ≤ r.seq
   syn : ∀ k f, NMap.get r.w.store k = some f → f.synced ≤ f.data.length
-  cur : ∀ c, r.cur = some c → CurClean crc r.w.store c
+  cur : ∀ c, r.cur = some c → CurClean fmt crc r.w.store c
   winv : WInv r.w
 
 /-- `e` sits in the file of the current writer (so the next successful `sync()` covers it) -/
-def InCur (crc : Bytes → Nat) (r : Rot) (e : Entry) : Prop :=
-  ∃ c f, r.cur = some c ∧ NMap.get r.w.store c = some f ∧ e ∈ fileEntries crc f.data
+def InCur (fmt : Format) (crc : Bytes → Nat) (r : Rot) (e : Entry) : Prop :=
+  ∃ c f, r.cur = some c ∧ NMap.get r.w.store c = some f ∧ e ∈ fileEntries fmt crc f.data
 
 /-- everything the proof carries through the rotator operations -/
-structure Inv (crc : Bytes → Nat) (acks : List AckRec) (pend : List Entry) (r : Rot) : Prop where
-  rinv : RInv crc r
-  safe : Safe crc acks r.w
+structure Inv (fmt : Format) (crc : Bytes → Nat) (acks : List AckRec) (pend : List Entry) (r : Rot) : Prop where
+  rinv : RInv fmt crc r
+  safe : Safe fmt crc acks r.w
   ackio : ∀ a ∈ acks, a.io ≤ r.w.io
-  pend : r.poisoned = false → ∀ e ∈ pend, InCur crc r e ∨ Dur crc r.w.store e
+  pend : r.poisoned = false → ∀ e ∈ pend, InCur fmt crc r e ∨ Dur fmt crc r.w.store e
 
-theorem curClean_sync_mono {crc : Bytes → Nat} {st : Store} {c : Nat} (h : CurClean crc st c) :
+theorem curClean_sync_mono {fmt : Format} {crc : Bytes → Nat} {st : Store} {c : Nat} (h : CurClean fmt crc st c) :
     ∀ f, NMap.get st c = some f →
-      ∀ x ∈ fileEntries crc (f.data.take f.synced), x ∈ fileEntries crc f.data := by
+      ∀ x ∈ fileEntries fmt crc (f.data.take f.synced), x ∈ fileEntries fmt crc f.data := by
   obtain ⟨es, k, syn, hg, hok, _, hs⟩ := h
   intro f hf x hx
   rw [hg] at hf; cases hf
   simp only at hx ⊢
-  rw [fileEntries_clean crc c es hok]
-  exact fileEntries_synced_prefix crc c es k syn hok hs x hx
+  rw [fileEntries_clean fmt crc c es hok]
+  exact fileEntries_synced_prefix fmt crc c es k syn hok hs x hx
 
 /-- a successful fsync of the current file makes everything in it durable -/
-theorem dur_of_inCur_sync {crc : Bytes → Nat} {st : Store} {c : Nat} {f : File} {e : Entry}
-    (hg : NMap.get st c = some f) (he : e ∈ fileEntries crc f.data) :
-    Dur crc (syncFile st c) e := by
+theorem dur_of_inCur_sync {fmt : Format} {crc : Bytes → Nat} {st : Store} {c : Nat} {f : File} {e : Entry}
+    (hg : NMap.get st c = some f) (he : e ∈ fileEntries fmt crc f.data) :
+    Dur fmt crc (syncFile st c) e := by
   unfold syncFile
   rw [hg]
   refine ⟨c, { f with synced := f.data.length }, by rw [NMap.get_insert, if_pos rfl], ?_⟩
@@ -230,17 +230,17 @@ theorem dur_of_inCur_sync {crc : Bytes → Nat} {st : Store} {c : Nat} {f : File
 
 /-! ### `ioSync` on the current file -/
 
-theorem inv_ioSync {crc : Bytes → Nat} {acks : List AckRec} {pend : List Entry} {r : Rot} {c : Nat}
-    (φ : Nat → Outcome) (h : Inv crc acks pend r) (hc : r.cur = some c) :
+theorem inv_ioSync {fmt : Format} {crc : Bytes → Nat} {acks : List AckRec} {pend : List Entry} {r : Rot} {c : Nat}
+    (φ : Nat → Outcome) (h : Inv fmt crc acks pend r) (hc : r.cur = some c) :
     let res := ioSync φ r.w c
     -- with the writer dropped afterwards (as `rotate` does)
-    Inv crc acks pend { r with w := res.1, cur := none, poisoned := r.poisoned || !res.2 } ∧
+    Inv fmt crc acks pend { r with w := res.1, cur := none, poisoned := r.poisoned || !res.2 } ∧
     -- with the writer kept (as `sync` does)
-    Inv crc acks pend { r with w := res.1, poisoned := r.poisoned || !res.2 } ∧
-    (res.2 = true → r.poisoned = false → ∀ e ∈ pend, Dur crc res.1.store e) ∧
+    Inv fmt crc acks pend { r with w := res.1, poisoned := r.poisoned || !res.2 } ∧
+    (res.2 = true → r.poisoned = false → ∀ e ∈ pend, Dur fmt crc res.1.store e) ∧
     res.1.io = r.w.io + 1 ∧ WInv res.1 := by
   have hcl := h.rinv.cur c hc
-  have hmono : ∀ e, Dur crc r.w.store e → Dur crc (syncFile r.w.store c) e :=
+  have hmono : ∀ e, Dur fmt crc r.w.store e → Dur fmt crc (syncFile r.w.store c) e :=
     fun e he => dur_syncFile (curClean_sync_mono hcl) he
   unfold ioSync
   cases hφ : φ r.w.io with
@@ -268,15 +268,15 @@ theorem inv_ioSync {crc : Bytes → Nat} {acks : List AckRec} {pend : List Entry
         split at hk
         · cases hk; simp
         · exact h.rinv.syn k f hk
-    have hpd : r.poisoned = false → ∀ e ∈ pend, Dur crc (syncFile r.w.store c) e := by
+    have hpd : r.poisoned = false → ∀ e ∈ pend, Dur fmt crc (syncFile r.w.store c) e := by
       intro hp e he
       rcases h.pend hp e he with ⟨c', f, hc', hg, hef⟩ | hd
       · rw [hc] at hc'; cases hc'
         exact dur_of_inCur_sync hg hef
       · exact hmono e hd
-    have hcur' : CurClean crc (syncFile r.w.store c) c := by
+    have hcur' : CurClean fmt crc (syncFile r.w.store c) c := by
       obtain ⟨es, k, syn, hg, hok, hk, hs⟩ := hcl
-      refine ⟨es, es.length, (header c ++ encs es).length, ?_, hok, Nat.le_refl _, Or.inr ?_⟩
+      refine ⟨es, es.length, (header fmt c ++ encs es).length, ?_, hok, Nat.le_refl _, Or.inr ?_⟩
       · unfold syncFile; rw [hg]; simp only; rw [NMap.get_insert, if_pos rfl]
       · rw [List.take_length]
     have hsafe := safe_push h.rinv.winv h.safe h.ackio (syncFile r.w.store c) (.sync c true) hmono
@@ -363,34 +363,34 @@ theorem syn_appendData {st : Store} (k : Nat) (bs : Bytes)
   · exact h k' f hg
 
 /-- the part of the invariant that does not mention the current writer or the pending set -/
-structure Base (crc : Bytes → Nat) (acks : List AckRec) (n : Nat) (w : World) : Prop where
+structure Base (fmt : Format) (crc : Bytes → Nat) (acks : List AckRec) (n : Nat) (w : World) : Prop where
   keys : ∀ k f, NMap.get w.store k = some f → k ≤ n
   syn : ∀ k f, NMap.get w.store k = some f → f.synced ≤ f.data.length
   winv : WInv w
-  safe : Safe crc acks w
+  safe : Safe fmt crc acks w
   ackio : ∀ a ∈ acks, a.io ≤ w.io
 
-theorem Inv.base {crc : Bytes → Nat} {acks : List AckRec} {pend : List Entry} {r : Rot}
-    (h : Inv crc acks pend r) : Base crc acks r.seq r.w :=
+theorem Inv.base {fmt : Format} {crc : Bytes → Nat} {acks : List AckRec} {pend : List Entry} {r : Rot}
+    (h : Inv fmt crc acks pend r) : Base fmt crc acks r.seq r.w :=
   ⟨h.rinv.keys, h.rinv.syn, h.rinv.winv, h.safe, h.ackio⟩
 
-theorem Base.mono_n {crc : Bytes → Nat} {acks : List AckRec} {n m : Nat} {w : World}
-    (h : Base crc acks n w) (hnm : n ≤ m) : Base crc acks m w :=
+theorem Base.mono_n {fmt : Format} {crc : Bytes → Nat} {acks : List AckRec} {n m : Nat} {w : World}
+    (h : Base fmt crc acks n w) (hnm : n ≤ m) : Base fmt crc acks m w :=
   ⟨fun k f hk => Nat.le_trans (h.keys k f hk) hnm, h.syn, h.winv, h.safe, h.ackio⟩
 
 /-- pushing a store that only grows what is durable keeps the base invariant -/
-theorem Base.push {crc : Bytes → Nat} {acks : List AckRec} {n : Nat} {w : World}
-    (h : Base crc acks n w) (st' : Store) (c : Call)
+theorem Base.push {fmt : Format} {crc : Bytes → Nat} {acks : List AckRec} {n : Nat} {w : World}
+    (h : Base fmt crc acks n w) (st' : Store) (c : Call)
     (hkeys : ∀ k f, NMap.get st' k = some f → k ≤ n)
     (hsyn : ∀ k f, NMap.get st' k = some f → f.synced ≤ f.data.length)
-    (hmono : ∀ e, Dur crc w.store e → Dur crc st' e) : Base crc acks n (w.push st' c) :=
+    (hmono : ∀ e, Dur fmt crc w.store e → Dur fmt crc st' e) : Base fmt crc acks n (w.push st' c) :=
   ⟨hkeys, hsyn, winv_push h.winv _ _, safe_push h.winv h.safe h.ackio st' c hmono,
     fun a ha => by rw [io_push]; exact Nat.le_succ_of_le (h.ackio a ha)⟩
 
-theorem base_ioAppend {crc : Bytes → Nat} {acks : List AckRec} {n : Nat} {w : World}
-    (φ : Nat → Outcome) (h : Base crc acks n w) (k : Nat) (bs : Bytes) :
-    Base crc acks n (ioAppend φ w k bs).1 ∧
-    (∀ e, Dur crc w.store e → Dur crc (ioAppend φ w k bs).1.store e) ∧
+theorem base_ioAppend {fmt : Format} {crc : Bytes → Nat} {acks : List AckRec} {n : Nat} {w : World}
+    (φ : Nat → Outcome) (h : Base fmt crc acks n w) (k : Nat) (bs : Bytes) :
+    Base fmt crc acks n (ioAppend φ w k bs).1 ∧
+    (∀ e, Dur fmt crc w.store e → Dur fmt crc (ioAppend φ w k bs).1.store e) ∧
     ((ioAppend φ w k bs).2 = none → (ioAppend φ w k bs).1.store = appendData w.store k bs) := by
   unfold ioAppend
   cases hφ : φ w.io with
@@ -408,10 +408,10 @@ theorem base_ioAppend {crc : Bytes → Nat} {acks : List AckRec} {n : Nat} {w : 
     simp only
     exact ⟨h.push _ _ h.keys h.syn (fun _ he => he), fun _ he => he, fun hc => by cases hc⟩
 
-theorem base_ioCreate {crc : Bytes → Nat} {acks : List AckRec} {n : Nat} {w : World}
-    (φ : Nat → Outcome) (h : Base crc acks n w) :
-    Base crc acks (n + 1) (ioCreate φ w (n + 1)).1 ∧
-    (∀ e, Dur crc w.store e → Dur crc (ioCreate φ w (n + 1)).1.store e) ∧
+theorem base_ioCreate {fmt : Format} {crc : Bytes → Nat} {acks : List AckRec} {n : Nat} {w : World}
+    (φ : Nat → Outcome) (h : Base fmt crc acks n w) :
+    Base fmt crc acks (n + 1) (ioCreate φ w (n + 1)).1 ∧
+    (∀ e, Dur fmt crc w.store e → Dur fmt crc (ioCreate φ w (n + 1)).1.store e) ∧
     ((ioCreate φ w (n + 1)).2 = none →
       NMap.get (ioCreate φ w (n + 1)).1.store (n + 1) = some ⟨[], 0⟩) := by
   have hfresh : NMap.get w.store (n + 1) = none := by
@@ -445,24 +445,24 @@ theorem base_ioCreate {crc : Bytes → Nat} {acks : List AckRec} {n : Nat} {w : 
 /-! ### rotator operations -/
 
 /-- build the invariant of a rotator without a current writer from the base part -/
-theorem inv_of_base_nocur {crc : Bytes → Nat} {acks : List AckRec} {pend : List Entry} {r : Rot}
-    (hb : Base crc acks r.seq r.w) (hc : r.cur = none)
-    (hp : r.poisoned = false → ∀ e ∈ pend, Dur crc r.w.store e) : Inv crc acks pend r :=
+theorem inv_of_base_nocur {fmt : Format} {crc : Bytes → Nat} {acks : List AckRec} {pend : List Entry} {r : Rot}
+    (hb : Base fmt crc acks r.seq r.w) (hc : r.cur = none)
+    (hp : r.poisoned = false → ∀ e ∈ pend, Dur fmt crc r.w.store e) : Inv fmt crc acks pend r :=
   ⟨⟨hb.keys, hb.syn, (fun c hcc => by rw [hc] at hcc; cases hcc), hb.winv⟩, hb.safe, hb.ackio,
     fun hpz e he => Or.inr (hp hpz e he)⟩
 
 /-- without a current writer every pending entry that is claimed is already durable -/
-theorem pend_dur_of_nocur {crc : Bytes → Nat} {acks : List AckRec} {pend : List Entry} {r : Rot}
-    (h : Inv crc acks pend r) (hc : r.cur = none) :
-    r.poisoned = false → ∀ e ∈ pend, Dur crc r.w.store e := by
+theorem pend_dur_of_nocur {fmt : Format} {crc : Bytes → Nat} {acks : List AckRec} {pend : List Entry} {r : Rot}
+    (h : Inv fmt crc acks pend r) (hc : r.cur = none) :
+    r.poisoned = false → ∀ e ∈ pend, Dur fmt crc r.w.store e := by
   intro hp e he
   rcases h.pend hp e he with ⟨c, f, hcc, _, _⟩ | hd
   · rw [hc] at hcc; cases hcc
   · exact hd
 
-theorem inv_close {crc : Bytes → Nat} {acks : List AckRec} {pend : List Entry} {r : Rot}
-    (fix : Bool) (φ : Nat → Outcome) (h : Inv crc acks pend r) :
-    Inv crc acks pend (Rot.close fix φ r) ∧ (Rot.close fix φ r).cur = none ∧
+theorem inv_close {fmt : Format} {crc : Bytes → Nat} {acks : List AckRec} {pend : List Entry} {r : Rot}
+    (fix : Bool) (φ : Nat → Outcome) (h : Inv fmt crc acks pend r) :
+    Inv fmt crc acks pend (Rot.close fix φ r) ∧ (Rot.close fix φ r).cur = none ∧
       (Rot.close fix φ r).seq = r.seq := by
   unfold Rot.close
   cases hc : r.cur with
@@ -475,18 +475,18 @@ theorem inv_close {crc : Bytes → Nat} {acks : List AckRec} {pend : List Entry}
       exact ⟨⟨⟨h.rinv.keys, h.rinv.syn, (fun c' hc' => by cases hc'), h.rinv.winv⟩, h.safe, h.ackio,
         (fun hp => by cases hp)⟩, rfl, rfl⟩
 
-theorem inv_rotate {crc : Bytes → Nat} {acks : List AckRec} {pend : List Entry} {r : Rot}
-    (fix : Bool) (φ : Nat → Outcome) (h : Inv crc acks pend r) :
-    Inv crc acks pend (Rot.rotate fix φ r).1 ∧
-    ((Rot.rotate fix φ r).2 = none → ∃ c, (Rot.rotate fix φ r).1.cur = some c) ∧
-    ((Rot.rotate fix φ r).2 ≠ none → (Rot.rotate fix φ r).1.cur = none) := by
+theorem inv_rotate {fmt : Format} {crc : Bytes → Nat} {acks : List AckRec} {pend : List Entry} {r : Rot}
+    (fix : Bool) (φ : Nat → Outcome) (h : Inv fmt crc acks pend r) :
+    Inv fmt crc acks pend (Rot.rotate fix fmt φ r).1 ∧
+    ((Rot.rotate fix fmt φ r).2 = none → ∃ c, (Rot.rotate fix fmt φ r).1.cur = some c) ∧
+    ((Rot.rotate fix fmt φ r).2 ≠ none → (Rot.rotate fix fmt φ r).1.cur = none) := by
   obtain ⟨h1, hc1, _⟩ := inv_close fix φ h
   have hp1 := pend_dur_of_nocur h1 hc1
   have b1 := h1.base
   unfold Rot.rotate
   simp only
   generalize Rot.close fix φ r = r1 at h1 hc1 hp1 b1
-  obtain ⟨bc, mc, gc⟩ := base_ioCreate (crc := crc) (acks := acks) φ b1
+  obtain ⟨bc, mc, gc⟩ := base_ioCreate (fmt := fmt) (crc := crc) (acks := acks) φ b1
   cases hcr : ioCreate φ r1.w (r1.seq + 1) with
   | mk w' oe =>
     rw [hcr] at bc mc gc
@@ -498,9 +498,9 @@ theorem inv_rotate {crc : Bytes → Nat} {acks : List AckRec} {pend : List Entry
     | none =>
       simp only
       have gc' := gc rfl
-      obtain ⟨ba, ma, ga⟩ := base_ioAppend (crc := crc) (acks := acks) φ bc (r1.seq + 1)
-        (header (r1.seq + 1))
-      cases hap : ioAppend φ w' (r1.seq + 1) (header (r1.seq + 1)) with
+      obtain ⟨ba, ma, ga⟩ := base_ioAppend (fmt := fmt) (crc := crc) (acks := acks) φ bc (r1.seq + 1)
+        (header fmt (r1.seq + 1))
+      cases hap : ioAppend φ w' (r1.seq + 1) (header fmt (r1.seq + 1)) with
       | mk w'' oe2 =>
         rw [hap] at ba ma ga
         cases oe2 with
@@ -524,14 +524,14 @@ theorem inv_rotate {crc : Bytes → Nat} {acks : List AckRec} {pend : List Entry
             exact Or.inr (ma e (mc e (hp1 hp e he)))
 
 
-theorem inv_appendTo {crc : Bytes → Nat} {acks : List AckRec} {pend : List Entry} {r : Rot}
-    (φ : Nat → Outcome) (h : Inv crc acks pend r) (hcur : ∃ c, r.cur = some c) (e : Entry)
-    (he : e.Fits ∧ e.Valid crc) :
-    ((Rot.appendTo φ r e).2 = none → Inv crc acks (pend ++ [e]) (Rot.appendTo φ r e).1) ∧
-    (∀ x, (Rot.appendTo φ r e).2 = some x → Inv crc acks pend (Rot.appendTo φ r e).1) := by
+theorem inv_appendTo {fmt : Format} {crc : Bytes → Nat} {acks : List AckRec} {pend : List Entry} {r : Rot}
+    (φ : Nat → Outcome) (h : Inv fmt crc acks pend r) (hcur : ∃ c, r.cur = some c) (e : Entry)
+    (he : e.Good fmt crc) :
+    ((Rot.appendTo φ r e).2 = none → Inv fmt crc acks (pend ++ [e]) (Rot.appendTo φ r e).1) ∧
+    (∀ x, (Rot.appendTo φ r e).2 = some x → Inv fmt crc acks pend (Rot.appendTo φ r e).1) := by
   obtain ⟨c, hc⟩ := hcur
   obtain ⟨es, k, syn, hg, hok, hk, hs⟩ := h.rinv.cur c hc
-  obtain ⟨ba, ma, ga⟩ := base_ioAppend (crc := crc) (acks := acks) φ h.base c e.encode
+  obtain ⟨ba, ma, ga⟩ := base_ioAppend (fmt := fmt) (crc := crc) (acks := acks) φ h.base c e.encode
   unfold Rot.appendTo
   rw [hc]
   simp only
@@ -542,10 +542,10 @@ theorem inv_appendTo {crc : Bytes → Nat} {acks : List AckRec} {pend : List Ent
     | none =>
       simp only
       have hst := ga rfl
-      have hgnew : NMap.get w'.store c = some ⟨header c ++ encs (es ++ [e]), syn⟩ := by
+      have hgnew : NMap.get w'.store c = some ⟨header fmt c ++ encs (es ++ [e]), syn⟩ := by
         rw [hst, get_appendData, if_pos rfl, hg]
         simp [encs]
-      have hok' : AllOk crc (es ++ [e]) := by
+      have hok' : AllOk fmt crc (es ++ [e]) := by
         intro x hx
         rcases List.mem_append.mp hx with h1 | h1
         · exact hok x h1
@@ -563,18 +563,18 @@ theorem inv_appendTo {crc : Bytes → Nat} {acks : List AckRec} {pend : List Ent
           · rw [hc] at hc'; cases hc'
             rw [hg] at hgf; cases hgf
             simp only at hxf
-            rw [fileEntries_clean crc c es hok] at hxf
+            rw [fileEntries_clean fmt crc c es hok] at hxf
             left
             refine ⟨c, _, rfl, hgnew, ?_⟩
             simp only
-            rw [fileEntries_clean crc c _ hok']
+            rw [fileEntries_clean fmt crc c _ hok']
             exact List.mem_append_left _ hxf
           · exact Or.inr (ma x hd)
         · simp only [List.mem_singleton] at h1; subst h1
           left
           refine ⟨c, _, rfl, hgnew, ?_⟩
           simp only
-          rw [fileEntries_clean crc c _ hok']
+          rw [fileEntries_clean fmt crc c _ hok']
           simp
     | some x =>
       simp only
@@ -587,11 +587,11 @@ theorem needsNew_false_cur {r : Rot} (h : r.needsNew = false) : ∃ c, r.cur = s
   | none => rw [hc] at h; cases h
   | some c => exact ⟨c, rfl⟩
 
-theorem inv_append {crc : Bytes → Nat} {acks : List AckRec} {pend : List Entry} {r : Rot}
-    (fix : Bool) (φ : Nat → Outcome) (h : Inv crc acks pend r) (e : Entry)
-    (he : e.Fits ∧ e.Valid crc) :
-    ((Rot.append fix φ r e).2 = none → Inv crc acks (pend ++ [e]) (Rot.append fix φ r e).1) ∧
-    (∀ x, (Rot.append fix φ r e).2 = some x → Inv crc acks pend (Rot.append fix φ r e).1) := by
+theorem inv_append {fmt : Format} {crc : Bytes → Nat} {acks : List AckRec} {pend : List Entry} {r : Rot}
+    (fix : Bool) (φ : Nat → Outcome) (h : Inv fmt crc acks pend r) (e : Entry)
+    (he : e.Good fmt crc) :
+    ((Rot.append fix fmt φ r e).2 = none → Inv fmt crc acks (pend ++ [e]) (Rot.append fix fmt φ r e).1) ∧
+    (∀ x, (Rot.append fix fmt φ r e).2 = some x → Inv fmt crc acks pend (Rot.append fix fmt φ r e).1) := by
   unfold Rot.append
   cases hn : r.needsNew with
   | false =>
@@ -600,7 +600,7 @@ theorem inv_append {crc : Bytes → Nat} {acks : List AckRec} {pend : List Entry
   | true =>
     simp only [if_true]
     obtain ⟨h1, hc1, hc2⟩ := inv_rotate fix φ h
-    cases hr : Rot.rotate fix φ r with
+    cases hr : Rot.rotate fix fmt φ r with
     | mk r1 oe =>
       rw [hr] at h1 hc1 hc2
       cases oe with
@@ -619,10 +619,10 @@ theorem storeAt_le {w : World} (h : WInv w) {t : Nat} {st : Store} (hs : w.store
   unfold World.io; omega
 
 /-- acks sent "now" for entries that are durable "now" may be added -/
-theorem inv_add_acks {crc : Bytes → Nat} {acks new : List AckRec} {pend : List Entry} {r : Rot}
-    (h : Inv crc acks pend r)
-    (hn : ∀ a ∈ new, a.io = r.w.io ∧ (a.res = .ok → Dur crc r.w.store a.entry)) :
-    Inv crc (new ++ acks) pend r := by
+theorem inv_add_acks {fmt : Format} {crc : Bytes → Nat} {acks new : List AckRec} {pend : List Entry} {r : Rot}
+    (h : Inv fmt crc acks pend r)
+    (hn : ∀ a ∈ new, a.io = r.w.io ∧ (a.res = .ok → Dur fmt crc r.w.store a.entry)) :
+    Inv fmt crc (new ++ acks) pend r := by
   refine ⟨h.rinv, ?_, ?_, h.pend⟩
   · intro a ha hok t st hle hst
     rcases List.mem_append.mp ha with h1 | h1
@@ -640,11 +640,11 @@ theorem inv_add_acks {crc : Bytes → Nat} {acks new : List AckRec} {pend : List
     · exact Nat.le_of_eq (hn a h1).1
     · exact h.ackio a h1
 
-theorem inv_sync {crc : Bytes → Nat} {acks : List AckRec} {pend : List Entry} {r : Rot}
-    (fix : Bool) (φ : Nat → Outcome) (h : Inv crc acks pend r)
+theorem inv_sync {fmt : Format} {crc : Bytes → Nat} {acks : List AckRec} {pend : List Entry} {r : Rot}
+    (fix : Bool) (φ : Nat → Outcome) (h : Inv fmt crc acks pend r)
     (hq : fix = true ∨ r.poisoned = false) :
-    Inv crc acks [] (Rot.sync fix φ r).1 ∧
-    ((Rot.sync fix φ r).2 = true → ∀ e ∈ pend, Dur crc (Rot.sync fix φ r).1.w.store e) := by
+    Inv fmt crc acks [] (Rot.sync fix φ r).1 ∧
+    ((Rot.sync fix φ r).2 = true → ∀ e ∈ pend, Dur fmt crc (Rot.sync fix φ r).1.w.store e) := by
   unfold Rot.sync
   by_cases hfp : (fix && r.poisoned) = true
   · rw [if_pos hfp]
@@ -670,10 +670,10 @@ theorem inv_sync {crc : Bytes → Nat} {acks : List AckRec} {pend : List Entry} 
 
 /-! ## the actor -/
 
-def AInv (crc : Bytes → Nat) (a : Actor) : Prop :=
-  Inv crc a.acks (a.pending.map (·.2)) a.rot
+def AInv (fmt : Format) (crc : Bytes → Nat) (a : Actor) : Prop :=
+  Inv fmt crc a.acks (a.pending.map (·.2)) a.rot
 
-theorem inv_init (crc : Bytes → Nat) (maxSize : Nat) : AInv crc (Actor.init maxSize) := by
+theorem inv_init (fmt : Format) (crc : Bytes → Nat) (maxSize : Nat) : AInv fmt crc (Actor.init maxSize) := by
   refine ⟨⟨?_, ?_, ?_, winv_init⟩, ?_, ?_, ?_⟩
   · intro k f h; cases h
   · intro k f h; cases h
@@ -682,12 +682,12 @@ theorem inv_init (crc : Bytes → Nat) (maxSize : Nat) : AInv crc (Actor.init ma
   · intro a ha; cases ha
   · intro _ e he; cases he
 
-theorem ainv_handleWrite {crc : Bytes → Nat} {a : Actor} (fix : Bool) (φ : Nat → Outcome)
-    (h : AInv crc a) (w : Write) (hw : w.Ok crc) : AInv crc (Actor.handleWrite fix φ crc a w) := by
+theorem ainv_handleWrite {fmt : Format} {crc : Bytes → Nat} {a : Actor} (fix : Bool) (φ : Nat → Outcome)
+    (h : AInv fmt crc a) (w : Write) (hw : w.Ok fmt crc) : AInv fmt crc (Actor.handleWrite fix φ fmt crc a w) := by
   unfold Actor.handleWrite
   simp only
-  obtain ⟨h1, h2⟩ := inv_append fix φ h (Entry.mk' crc w.data w.ts) ⟨hw, rfl⟩
-  cases hr : Rot.append fix φ a.rot (Entry.mk' crc w.data w.ts) with
+  obtain ⟨h1, h2⟩ := inv_append fix φ h (Entry.mk' fmt crc w.data w.ts) ⟨hw.1, rfl, hw.2⟩
+  cases hr : Rot.append fix fmt φ a.rot (Entry.mk' fmt crc w.data w.ts) with
   | mk r oe =>
     rw [hr] at h1 h2
     cases oe with
@@ -700,7 +700,7 @@ theorem ainv_handleWrite {crc : Bytes → Nat} {a : Actor} (fix : Bool) (φ : Na
       simp only
       unfold AInv
       simp only
-      have := inv_add_acks (new := [⟨w.id, Entry.mk' crc w.data w.ts, .err x, r.w.io⟩]) (h2 x rfl)
+      have := inv_add_acks (new := [⟨w.id, Entry.mk' fmt crc w.data w.ts, .err x, r.w.io⟩]) (h2 x rfl)
         (by
           intro a' ha'
           simp only [List.mem_singleton] at ha'
@@ -708,9 +708,9 @@ theorem ainv_handleWrite {crc : Bytes → Nat} {a : Actor} (fix : Bool) (φ : Na
           exact ⟨rfl, fun hc => by cases hc⟩)
       simpa using this
 
-theorem ainv_flush {crc : Bytes → Nat} {a : Actor} (fix : Bool) (φ : Nat → Outcome)
-    (h : AInv crc a) (hq : fix = true ∨ a.esync = 0 ∨ a.rot.poisoned = false) :
-    AInv crc (Actor.flush fix φ a) := by
+theorem ainv_flush {fmt : Format} {crc : Bytes → Nat} {a : Actor} (fix : Bool) (φ : Nat → Outcome)
+    (h : AInv fmt crc a) (hq : fix = true ∨ a.esync = 0 ∨ a.rot.poisoned = false) :
+    AInv fmt crc (Actor.flush fix φ a) := by
   unfold Actor.flush
   by_cases he : a.esync = 0
   · rw [if_pos he]; exact h
@@ -744,13 +744,13 @@ def Actor.quietStep (a : Actor) : Ev → Bool
   | .flush => a.esync == 0 || !a.rot.poisoned
   | .write _ => true
 
-def Actor.quiet (φ : Nat → Outcome) (crc : Bytes → Nat) : List Ev → Actor → Bool
+def Actor.quiet (φ : Nat → Outcome) (fmt : Format) (crc : Bytes → Nat) : List Ev → Actor → Bool
   | [], _ => true
-  | ev :: evs, a => a.quietStep ev && Actor.quiet φ crc evs (Actor.step false φ crc a ev)
+  | ev :: evs, a => a.quietStep ev && Actor.quiet φ fmt crc evs (Actor.step false φ fmt crc a ev)
 
-theorem ainv_step {crc : Bytes → Nat} {a : Actor} (fix : Bool) (φ : Nat → Outcome)
-    (h : AInv crc a) (ev : Ev) (hw : ∀ w, ev = .write w → w.Ok crc)
-    (hq : fix = true ∨ a.quietStep ev = true) : AInv crc (Actor.step fix φ crc a ev) := by
+theorem ainv_step {fmt : Format} {crc : Bytes → Nat} {a : Actor} (fix : Bool) (φ : Nat → Outcome)
+    (h : AInv fmt crc a) (ev : Ev) (hw : ∀ w, ev = .write w → w.Ok fmt crc)
+    (hq : fix = true ∨ a.quietStep ev = true) : AInv fmt crc (Actor.step fix φ fmt crc a ev) := by
   cases ev with
   | write w => exact ainv_handleWrite fix φ h w (hw w rfl)
   | flush =>
@@ -761,10 +761,10 @@ theorem ainv_step {crc : Bytes → Nat} {a : Actor} (fix : Bool) (φ : Nat → O
       simp only [Actor.quietStep, Bool.or_eq_true, beq_iff_eq, Bool.not_eq_true'] at hq
       exact hq
 
-theorem ainv_foldl {crc : Bytes → Nat} (fix : Bool) (φ : Nat → Outcome) (evs : List Ev) (a : Actor)
-    (h : AInv crc a) (hw : ∀ w, Ev.write w ∈ evs → w.Ok crc)
-    (hq : fix = true ∨ Actor.quiet φ crc evs a = true) :
-    AInv crc (evs.foldl (Actor.step fix φ crc) a) := by
+theorem ainv_foldl {fmt : Format} {crc : Bytes → Nat} (fix : Bool) (φ : Nat → Outcome) (evs : List Ev) (a : Actor)
+    (h : AInv fmt crc a) (hw : ∀ w, Ev.write w ∈ evs → w.Ok fmt crc)
+    (hq : fix = true ∨ Actor.quiet φ fmt crc evs a = true) :
+    AInv fmt crc (evs.foldl (Actor.step fix φ fmt crc) a) := by
   induction evs generalizing a with
   | nil => exact h
   | cons ev evs ih =>
@@ -781,8 +781,8 @@ theorem ainv_foldl {crc : Bytes → Nat} (fix : Bool) (φ : Nat → Outcome) (ev
         exact ih _ (ainv_step false φ h ev (fun w hev => hw w (by rw [hev]; simp)) (Or.inr hq.1))
           (fun w hwm => hw w (List.mem_cons_of_mem _ hwm)) (Or.inr hq.2)
 
-theorem ainv_runGroup {crc : Bytes → Nat} (φ : Nat → Outcome) (m : Nat) (ws : List Write) (a : Actor)
-    (h : AInv crc a) (hw : ∀ w ∈ ws, w.Ok crc) : AInv crc (Actor.runGroup true φ crc m a ws) := by
+theorem ainv_runGroup {fmt : Format} {crc : Bytes → Nat} (φ : Nat → Outcome) (m : Nat) (ws : List Write) (a : Actor)
+    (h : AInv fmt crc a) (hw : ∀ w ∈ ws, w.Ok fmt crc) : AInv fmt crc (Actor.runGroup true φ fmt crc m a ws) := by
   unfold Actor.runGroup
   apply ainv_flush true φ _ (Or.inl rfl)
   induction ws generalizing a with
@@ -795,5 +795,230 @@ theorem ainv_runGroup {crc : Bytes → Nat} (φ : Nat → Outcome) (m : Nat) (ws
       · exact ainv_flush true φ h1 (Or.inl rfl)
       · exact h1
     · intro x hx; exact hw x (List.mem_cons_of_mem _ hx)
+
+/-! ## every write is answered exactly once -/
+
+/-- ids already answered, then ids still waiting for the group fsync -/
+def Actor.ids (a : Actor) : List Nat := a.acks.map (·.id) ++ a.pending.map (·.1)
+
+def Ev.ids : Ev → List Nat
+  | .write w => [w.id]
+  | .flush => []
+
+theorem pending_len_step (fix : Bool) (fmt : Format) (φ : Nat → Outcome) (crc : Bytes → Nat)
+    (a : Actor) (ev : Ev) (h : a.pending.length = a.esync) :
+    (Actor.step fix φ fmt crc a ev).pending.length = (Actor.step fix φ fmt crc a ev).esync := by
+  cases ev with
+  | write w =>
+    simp only [Actor.step, Actor.handleWrite]
+    cases Rot.append fix fmt φ a.rot (Entry.mk' fmt crc w.data w.ts) with
+    | mk r oe =>
+      cases oe with
+      | none => simp [h]
+      | some x => simpa using h
+  | flush =>
+    simp only [Actor.step, Actor.flush]
+    split
+    · exact h
+    · rfl
+
+theorem ids_step_perm (fix : Bool) (fmt : Format) (φ : Nat → Outcome) (crc : Bytes → Nat)
+    (a : Actor) (ev : Ev) :
+    List.Perm (Actor.step fix φ fmt crc a ev).ids (a.ids ++ ev.ids) := by
+  cases ev with
+  | write w =>
+    simp only [Actor.step, Actor.handleWrite, Ev.ids]
+    cases Rot.append fix fmt φ a.rot (Entry.mk' fmt crc w.data w.ts) with
+    | mk r oe =>
+      cases oe with
+      | none =>
+        simp only [Actor.ids, List.map_append, List.map_cons, List.map_nil, List.append_assoc]
+        exact List.Perm.refl _
+      | some x =>
+        simp only [Actor.ids, List.map_cons, List.cons_append]
+        exact (List.perm_append_singleton _ _).symm
+  | flush =>
+    simp only [Actor.step, Actor.flush, Ev.ids, List.append_nil]
+    split
+    · exact List.Perm.refl _
+    · simp only [Actor.ids, List.map_append, List.map_reverse, List.map_map, List.map_nil,
+        List.append_nil]
+      have : (List.map ((fun x => x.id) ∘ fun p =>
+          ({ id := p.1, entry := p.2,
+             res := if (Rot.sync fix φ a.rot).2 = true then Ack.ok else Ack.err Err.fsync,
+             io := (Rot.sync fix φ a.rot).1.w.io } : AckRec)) a.pending)
+          = a.pending.map (·.1) := by
+        apply List.map_congr_left; intro p _; rfl
+      rw [this]
+      exact (List.reverse_perm _).append_right _ |>.trans List.perm_append_comm
+
+theorem ids_foldl_perm (fix : Bool) (fmt : Format) (φ : Nat → Outcome) (crc : Bytes → Nat)
+    (evs : List Ev) (a : Actor) :
+    List.Perm (evs.foldl (Actor.step fix φ fmt crc) a).ids (a.ids ++ evs.flatMap Ev.ids) := by
+  induction evs generalizing a with
+  | nil => simp
+  | cons ev evs ih =>
+    simp only [List.foldl_cons, List.flatMap_cons]
+    refine (ih _).trans ?_
+    rw [← List.append_assoc]
+    exact (ids_step_perm fix fmt φ crc a ev).append_right _
+
+theorem pending_len_foldl (fix : Bool) (fmt : Format) (φ : Nat → Outcome) (crc : Bytes → Nat)
+    (evs : List Ev) (a : Actor) (h : a.pending.length = a.esync) :
+    (evs.foldl (Actor.step fix φ fmt crc) a).pending.length
+      = (evs.foldl (Actor.step fix φ fmt crc) a).esync := by
+  induction evs generalizing a with
+  | nil => exact h
+  | cons ev evs ih => exact ih _ (pending_len_step fix fmt φ crc a ev h)
+
+/-! ## file sequence numbers only grow -/
+
+/-- sequence numbers of the `create` calls of a trace (newest first, like the trace) -/
+def createSeqs : List Call → List Nat
+  | [] => []
+  | .create s _ :: tr => s :: createSeqs tr
+  | _ :: tr => createSeqs tr
+
+/-- every file ever created has a sequence number ≤ `n`, and each `create` used a number
+    strictly greater than all earlier ones -/
+def WSeq (w : World) (n : Nat) : Prop :=
+  (createSeqs w.trace).Pairwise (· > ·) ∧ ∀ s ∈ createSeqs w.trace, s ≤ n
+
+theorem wseq_ioSync (φ : Nat → Outcome) {w : World} {n : Nat} (c : Nat) (h : WSeq w n) :
+    WSeq (ioSync φ w c).1 n := by
+  unfold ioSync
+  cases φ w.io <;> exact h
+
+theorem wseq_ioAppend (φ : Nat → Outcome) {w : World} {n : Nat} (k : Nat) (bs : Bytes)
+    (h : WSeq w n) : WSeq (ioAppend φ w k bs).1 n := by
+  unfold ioAppend
+  cases φ w.io <;> exact h
+
+theorem wseq_ioCreate (φ : Nat → Outcome) {w : World} {n : Nat} (h : WSeq w n) :
+    WSeq (ioCreate φ w (n + 1)).1 (n + 1) := by
+  have hnew : WSeq (w.push w.store (.create (n + 1) true)) (n + 1) ∧
+      WSeq (w.push w.store (.create (n + 1) false)) (n + 1) := by
+    constructor <;>
+    · refine ⟨List.pairwise_cons.mpr ⟨fun s hs => ?_, h.1⟩, fun s hs => ?_⟩
+      · have := h.2 s hs; omega
+      · rcases List.mem_cons.mp hs with rfl | hs'
+        · exact Nat.le_refl _
+        · have := h.2 s hs'; omega
+  unfold ioCreate
+  cases φ w.io
+  · exact hnew.1
+  all_goals exact hnew.2
+
+def RSeq (r : Rot) : Prop := WSeq r.w r.seq
+
+theorem rseq_close (fix : Bool) (φ : Nat → Outcome) {r : Rot} (h : RSeq r) :
+    RSeq (Rot.close fix φ r) := by
+  unfold Rot.close
+  cases r.cur with
+  | none => exact h
+  | some c =>
+    cases fix
+    · exact h
+    · exact wseq_ioSync φ c h
+
+theorem close_seq (fix : Bool) (φ : Nat → Outcome) (r : Rot) : (Rot.close fix φ r).seq = r.seq := by
+  unfold Rot.close
+  cases r.cur with
+  | none => rfl
+  | some c => cases fix <;> rfl
+
+theorem rseq_rotate (fix : Bool) (fmt : Format) (φ : Nat → Outcome) {r : Rot} (h : RSeq r) :
+    RSeq (Rot.rotate fix fmt φ r).1 ∧ r.seq ≤ (Rot.rotate fix fmt φ r).1.seq := by
+  have h1 := rseq_close fix φ h
+  have hs := close_seq fix φ r
+  unfold Rot.rotate
+  simp only
+  generalize Rot.close fix φ r = r1 at h1 hs
+  have hc := wseq_ioCreate φ h1
+  cases hcr : ioCreate φ r1.w (r1.seq + 1) with
+  | mk w' oe =>
+    rw [hcr] at hc
+    cases oe with
+    | some e => exact ⟨hc, by simp only; omega⟩
+    | none =>
+      simp only
+      have ha := wseq_ioAppend φ (r1.seq + 1) (header fmt (r1.seq + 1)) hc
+      cases hap : ioAppend φ w' (r1.seq + 1) (header fmt (r1.seq + 1)) with
+      | mk w'' oe2 =>
+        rw [hap] at ha
+        cases oe2 <;> exact ⟨ha, by simp only; omega⟩
+
+theorem rseq_appendTo (φ : Nat → Outcome) {r : Rot} (e : Entry) (h : RSeq r) :
+    RSeq (Rot.appendTo φ r e).1 ∧ (Rot.appendTo φ r e).1.seq = r.seq := by
+  unfold Rot.appendTo
+  cases r.cur with
+  | none => exact ⟨h, rfl⟩
+  | some c =>
+    simp only
+    have ha := wseq_ioAppend φ c e.encode h
+    cases hap : ioAppend φ r.w c e.encode with
+    | mk w' oe =>
+      rw [hap] at ha
+      cases oe <;> exact ⟨ha, rfl⟩
+
+theorem rseq_append (fix : Bool) (fmt : Format) (φ : Nat → Outcome) {r : Rot} (e : Entry)
+    (h : RSeq r) : RSeq (Rot.append fix fmt φ r e).1 ∧ r.seq ≤ (Rot.append fix fmt φ r e).1.seq := by
+  unfold Rot.append
+  cases r.needsNew with
+  | false =>
+    simp only [Bool.false_eq_true, if_false]
+    have := rseq_appendTo φ e h
+    exact ⟨this.1, Nat.le_of_eq this.2.symm⟩
+  | true =>
+    simp only [if_true]
+    obtain ⟨h1, h2⟩ := rseq_rotate fix fmt φ h
+    cases hr : Rot.rotate fix fmt φ r with
+    | mk r1 oe =>
+      rw [hr] at h1 h2
+      cases oe with
+      | some x => exact ⟨h1, h2⟩
+      | none =>
+        simp only
+        have := rseq_appendTo φ e h1
+        exact ⟨this.1, by rw [this.2]; exact h2⟩
+
+theorem rseq_sync (fix : Bool) (φ : Nat → Outcome) {r : Rot} (h : RSeq r) :
+    RSeq (Rot.sync fix φ r).1 ∧ (Rot.sync fix φ r).1.seq = r.seq := by
+  unfold Rot.sync
+  split
+  · exact ⟨h, rfl⟩
+  · cases r.cur with
+    | none => exact ⟨h, rfl⟩
+    | some c => exact ⟨wseq_ioSync φ c h, rfl⟩
+
+theorem rseq_step (fix : Bool) (fmt : Format) (φ : Nat → Outcome) (crc : Bytes → Nat) (a : Actor)
+    (ev : Ev) (h : RSeq a.rot) :
+    RSeq (Actor.step fix φ fmt crc a ev).rot ∧ a.rot.seq ≤ (Actor.step fix φ fmt crc a ev).rot.seq := by
+  cases ev with
+  | write w =>
+    simp only [Actor.step, Actor.handleWrite]
+    have := rseq_append fix fmt φ (Entry.mk' fmt crc w.data w.ts) h
+    cases hr : Rot.append fix fmt φ a.rot (Entry.mk' fmt crc w.data w.ts) with
+    | mk r oe =>
+      rw [hr] at this
+      cases oe <;> exact this
+  | flush =>
+    simp only [Actor.step, Actor.flush]
+    split
+    · exact ⟨h, Nat.le_refl _⟩
+    · have := rseq_sync fix φ h
+      exact ⟨this.1, Nat.le_of_eq this.2.symm⟩
+
+theorem rseq_foldl (fix : Bool) (fmt : Format) (φ : Nat → Outcome) (crc : Bytes → Nat)
+    (evs : List Ev) (a : Actor) (h : RSeq a.rot) :
+    RSeq (evs.foldl (Actor.step fix φ fmt crc) a).rot ∧
+      a.rot.seq ≤ (evs.foldl (Actor.step fix φ fmt crc) a).rot.seq := by
+  induction evs generalizing a with
+  | nil => exact ⟨h, Nat.le_refl _⟩
+  | cons ev evs ih =>
+    simp only [List.foldl_cons]
+    obtain ⟨h1, h2⟩ := rseq_step fix fmt φ crc a ev h
+    obtain ⟨h3, h4⟩ := ih _ h1
+    exact ⟨h3, Nat.le_trans h2 h4⟩
 
 end RedisVerif.Wal
